@@ -25,7 +25,10 @@ EXPLANATION = (
     "are compared as normalised value graphs (equal graphs => bit-identical results for every "
     "input), the chunked route shifts the segment table by exactly the chunk start and clips it at "
     "zero (a negative bound is a wrap-around slice in Python; only visible with >= 2 chunks), and "
-    "the heteronuclear parameter is clipped on both sides below 1/2.  NOT decided: weights in "
+    "the heteronuclear parameter is clipped on both sides below 1/2; (R4) in both multi-sector routes "
+    "iteration K updates weights[pt_ind[K]:pt_ind[K+1]] with atom select[K] (value graphs in K); (R5) "
+    "Hirshfeld share; (R6) index-space inference: no per-atom array is addressed with the counter "
+    "of an enumerated selection or a doubly applied permutation.  NOT decided: weights in "
     "[0,1], sum to one, nuclear values, invariances, Hirshfeld ratio (numerical).")
 RULE = "2 pipeline pairs (product, normalised selection), chunk-table obligations, clip obligations, segment-loop pairing"
 
